@@ -89,6 +89,10 @@ func (pkv *PublicKeyVerifier) Verify(pubKey *PublicKey, msg, signature []byte) e
 }
 
 func (pkv *PublicKeyVerifier) matchVerifier(verifier SignatureVerifier, j *jwk.JWK) bool {
+	if j == nil { // the resolved verification method carries no JWK
+		return false
+	}
+
 	// "kty" is a mandatory field in JWK.
 	if verifier.KeyType() != j.Kty {
 		return false
